@@ -101,6 +101,40 @@ CHECKS = {
             'Random watcher sets with priority ties, numprocesses 0-3, warmups and autostart flags; daemon start, '
             'start/restart of all, by glob and by regex; deaths injected during the sequence.',
             'Virtual clock; no periodic check runs during a start sequence.'),
+    'C12': ('SIM', 'exploration',
+            'runtime monitoring: differential comparison of the reloaded daemon with a fresh simulated daemon started '
+            'on the same file; pid continuity and kernel-activity oracles',
+            'Chains of configuration versions produced by labelled edits (add/remove watcher, numprocesses incl. '
+            'reverts, cmd/args, global and named env, option add/remove/modify, no-op rewrites); after every '
+            'reloadconfig the protocol view must equal a fresh start, untouched watchers keep their pids, '
+            'numprocesses-only edits move only the difference, unchanged files cause no kernel activity.',
+            'What a file means is taken from get_config (C16 checks that against the documentation).'),
+    'C13': ('REF+SIM', 'exploration',
+            'runtime monitoring: Process.format_args vs an independent argv model on enumerated token sequences; '
+            'arguments of the process-creation call captured by the simulated kernel over respawn histories',
+            'Exhaustive over short token sequences (quotes, backslashes, dollars, both reference syntaxes in any '
+            'case, unknown references) in three roles with shell on/off, random beyond; every spawn record of random '
+            'death/incr/decr/reload histories is compared with the model (argv, env, cwd) and live wids must be '
+            'distinct positive integers starting at 1.',
+            'Unknown names come from a reserved pool; env names never collide ignoring case; the model splitter is '
+            'cross-checked against shlex on every input.'),
+    'C16': ('REF', 'exploration',
+            'runtime monitoring: get_config and the Watcher built from it vs a reference reader written from the '
+            'documentation, on generated ini files',
+            'Generated files with watcher, env, env:PATTERN (wildcards, comma lists), socket and plugin sections in '
+            'shuffled order, typed/boolean/signal/stream/rlimit/hook/free-form options and references in any option; '
+            'every option value and type, every environment and the Watcher attributes must agree; parsing twice '
+            'must be equal.',
+            'Ambiguous classes (case-colliding names, references inside env values, typed options referring to '
+            'env:NAME-only variables, repeated identical headers) are not generated; the __name__ marker in the '
+            'watcher dict is not an option and is not compared.'),
+    'C20': ('REF', 'exploration',
+            'runtime monitoring: the real FileStream in a scratch directory, suffix/size/count oracles after every '
+            'write',
+            'Exhaustive over max_bytes 1..8 x backup_count 1..3 x all write-size sequences (length 4 quick / 5 '
+            'thorough, every prefix checked), random beyond with pre-existing files, gaps, time_format, multi-line '
+            'and non-ASCII payloads, close/reopen and no-rotation streams.',
+            'Size bound judged on ASCII payloads without time_format.'),
 }
 
 NOT_YET = {
